@@ -48,6 +48,7 @@ pub mod _benchable {
 #[doc(hidden)]
 // WARNING: verification hooks, compiled only with `--cfg httparse_verif`
 pub mod __verif {
+    pub use super::iter::verif::take_counters;
     #[cfg(all(
         httparse_simd,
         not(any(httparse_simd_target_feature_sse42, httparse_simd_target_feature_avx2)),
